@@ -109,6 +109,32 @@ def build_coq(target, timeout):
     return sh("make -j16 %s" % target, cwd=COQ, timeout=timeout)
 
 
+def cone_deps(targets):
+    """transitive .vo dependencies of the targets, from the dependency file coq_makefile maintains"""
+    deps = {}
+    mk = os.path.join(COQ, ".Makefile.d")
+    if not os.path.exists(mk):
+        sh("make .Makefile.d", cwd=COQ, timeout=600)
+    try:
+        for line in open(mk):
+            if ":" not in line:
+                continue
+            lhs, rhs = line.split(":", 1)
+            outs = [x for x in lhs.split() if x.endswith(".vo")]
+            if outs:
+                deps[outs[0]] = [x for x in rhs.split() if x.endswith(".vo")]
+    except OSError:
+        return set(["*"])
+    seen, todo = set(), list(targets)
+    while todo:
+        t = todo.pop()
+        if t in seen:
+            continue
+        seen.add(t)
+        todo.extend(deps.get(t, []))
+    return seen
+
+
 def first_error(out):
     m = re.search(r'File "([^"]+)", line (\d+)[^\n]*\n(Error:(?:.|\n)*?)(?:\n\n|\nmake|$)', out)
     if m:
@@ -227,9 +253,11 @@ def main():
         broken.append({"kind": "broken-translator", "detail": out.strip()[-500:]})
     else:
         notes.append("gen: " + out.strip()[-200:])
-    changed_fns = []
+    changed_fns, gen_errors = [], []
     try:
-        changed_fns = json.loads(out.strip().split("\n")[-1]).get("changed_functions", [])
+        rep = json.loads(out.strip().split("\n")[-1])
+        changed_fns = rep.get("changed_functions", [])
+        gen_errors = rep.get("errors", [])
     except Exception:
         pass
     anchors = []
@@ -250,6 +278,19 @@ def main():
     # 2. theorems: Props/Cxx.v plus any Props/Cxx_<part>.v (a property's theorems may be split by structure)
     proof_timeout = 3000 if tier == "thorough" else 1500
     prop_files = ["Props/%s.v" % prop] + sorted(os.path.relpath(f, COQ) for f in glob.glob(os.path.join(COQ, "Props", prop + "_*.v")))
+    # translator errors concern this property only if its cone depends on the generated file that could not be
+    # regenerated (it is STALE: the theorems would be re-checked against what the code said earlier). A single helper
+    # left out of Funs.v / Funs2.v needs no scoping here: whatever refers to it fails to build below.
+    if gen_errors:
+        sh([os.path.join(ROOT, "tools", "mkproject.sh")])
+        cone = cone_deps([pf + "o" for pf in prop_files] + ["Check/%s.vo" % prop])
+        for ge in gen_errors:
+            if ge.get("function"):
+                notes.append("translator left out %s: %s" % (ge["function"], ge.get("msg", "")[:200]))
+            elif ("gen/" + ge.get("file", "?") + "o") in cone:
+                broken.append({"kind": "broken-translator", "detail": "%s could not be regenerated from the current source (stale): %s" % (ge.get("file"), ge.get("msg", "")[:400])})
+            else:
+                notes.append("translator could not regenerate %s (not in this property's cone): %s" % (ge.get("file"), ge.get("msg", "")[:200]))
     if tier == "thorough":
         # clean rebuild of the cone
         for pf in prop_files:
